@@ -120,6 +120,14 @@ def fill_scales_for_dyadic_pyramid(info, target_chunk_size=64,
             anisotropy_factors = [max(f - anisotropy_reduction, 0)
                                   for f in anisotropy_factors]
             sum_anisotropy_factors = sum(anisotropy_factors)
+            if sum_anisotropy_factors > 3 * target_chunk_exponent:
+                # A factor smaller than the reduction was clipped to zero, so
+                # less than the excess was removed: take the remainder from
+                # the largest factor.
+                largest = anisotropy_factors.index(max(anisotropy_factors))
+                anisotropy_factors[largest] -= (sum_anisotropy_factors
+                                                - 3 * target_chunk_exponent)
+                sum_anisotropy_factors = sum(anisotropy_factors)
             assert sum_anisotropy_factors <= 3 * target_chunk_exponent
 
         base_chunk_exponent = (
